@@ -158,6 +158,8 @@ package soyhtml
 //@   nosafety
 //@   abstractfloats
 //@   modifies *
+//@   loop 7
+//@     orderfree -- the items of a map literal are evaluated in map order into a fresh map; evaluating an expression has no effect other than its value or a runtime error, so the order can only change which of several failing items is named in the error of a failed rendering (that text also carries a stack dump and is not reproducible anyway)
 //@   ghost werr bool = false
 //@   at call io.Writer.Write#* assert[no-write-after-failure] !werr
 //@   at call io.Writer.Write#* after set werr = werr || res1 != nil
